@@ -71,4 +71,37 @@ inline void set_state(Root &r, unsigned bits)
     r.c_val = bits & 128;
 }
 
+// ---- long addresses: a chain port whose name is chosen at run time (any length), above an array of 16 pointers and an array
+// of 12 objects
+struct Cell {
+    int x = 0;
+    static const rtosc::Ports ports;
+};
+#define rObject Cell
+const rtosc::Ports Cell::ports = {
+    rParamI(x, rLinear(-8, 8), rDefault(0), "cell value"),
+};
+#undef rObject
+
+struct Rack {
+    Cell *cells[16];
+    Leaf v[12];
+    Cell pool[16];
+    static const rtosc::Ports ports;
+};
+#define rObject Rack
+const rtosc::Ports Rack::ports = {
+    rRecursp(cells, 16, "cells, each may be null"),
+    rRecurs(v, 12, "vector"),
+};
+#undef rObject
+
+struct LongRoot { Rack rack; };
+#define rObject LongRoot
+inline rtosc::Ports *make_long_ports(const char *chain_name)
+{
+    return new rtosc::Ports({{chain_name, rDoc("chain"), &Rack::ports, rRecurCb(rack)}});
+}
+#undef rObject
+
 } // namespace walkapp
